@@ -2,8 +2,10 @@
 """import_seed.py <ID> <A|B>: copies a sub-agent's deliverable into /verif/seeded/<ID>-<v>/ (patch.diff, demo_test.go, meta.json)."""
 import json, os, shutil, sys
 pid, v = sys.argv[1], sys.argv[2]
-src = "/tmp/wt/%s.out/%s" % (pid, v)
-dst = "/verif/seeded/%s-%s" % (pid, v)
+outsuffix = sys.argv[3] if len(sys.argv) > 3 else ""      # e.g. "2" for the second wave
+dstv = sys.argv[4] if len(sys.argv) > 4 else v             # letter used in /verif/seeded
+src = "/tmp/wt/%s.out%s/%s" % (pid, outsuffix, v)
+dst = "/verif/seeded/%s-%s" % (pid, dstv)
 os.makedirs(dst, exist_ok=True)
 shutil.copy(src + "/patch.diff", dst + "/patch.diff")
 shutil.copy(src + "/demo_test.go", dst + "/demo_test.go")
@@ -13,13 +15,13 @@ meta = {
     "breaks": m.get("summary", ""),
     "needs_to_manifest": m.get("needs_to_manifest", ""),
     "files": m.get("files", []),
-    "author": "independent sub-agent given only the property text and a scratch worktree",
+    "author": "independent sub-agent given only the property text and a scratch worktree" + (" (second wave: asked for interleaving / fault-window dependent changes)" if outsuffix == "2" else ""),
     "sub_agent_commands": m.get("commands_run", []),
 }
 old = {}
 if os.path.exists(dst + "/meta.json"):
     old = json.load(open(dst + "/meta.json"))
-for k in ("audit", "detected_by", "demo_pkg"):
+for k in ("audit", "detected_by", "demo_pkg", "check_history", "ported"):
     if k in old:
         meta[k] = old[k]
 json.dump(meta, open(dst + "/meta.json", "w"), indent=1)
